@@ -5457,9 +5457,14 @@ class PyCdlib:
         # the Boot Catalog.
         for rec in self.eltorito_boot_catalog.dirrecords:
             if isinstance(rec, dr.DirectoryRecord):
-                num_bytes_to_remove += self._rm_dr_link(rec)
+                # A name of the Boot Catalog that was removed with
+                # rm_hard_link is still tracked here; only remove the
+                # records that are still in their directory.
+                if rec.parent is not None and any(id(child) == id(rec) for child in rec.parent.children):
+                    num_bytes_to_remove += self._rm_dr_link(rec)
             elif isinstance(rec, udfmod.UDFFileEntry):
-                num_bytes_to_remove += self._rm_udf_link(rec)
+                if rec.parent is not None and any(id(fi_desc.file_entry) == id(rec) for fi_desc in rec.parent.fi_descs):
+                    num_bytes_to_remove += self._rm_udf_link(rec)
             else:
                 # This should never happen.
                 raise pycdlibexception.PyCdlibInternalError('Saw an El Torito record that was neither ISO nor UDF')
